@@ -2,6 +2,8 @@
 
 package gtree
 
+import "iter"
+
 func init() {
 	verifRegister("VerifC13", VerifC13)
 }
@@ -13,6 +15,9 @@ var c13Common, c13JSON []Option
 type c13Tree struct {
 	root  *mNode
 	nodes []*mNode
+	// the iterator of the tree, made when the tree was made: a range over it walks the tree as it is THEN (every Add
+	// of the history comes after its creation, and it is ranged more than once)
+	seq iter.Seq2[*WalkerNode, error]
 }
 
 // c13Op runs one From-Root operation on the tree and returns its observable result as a string.
@@ -32,7 +37,10 @@ func c13Op(kind uint, t *c13Tree) (string, error) {
 	case 2: // iterator walk: rows and paths
 		rows := ""
 		var err error
-		for wn, e := range WalkIterFromRoot(t.root.real) {
+		if t.seq == nil {
+			t.seq = WalkIterFromRoot(t.root.real)
+		}
+		for wn, e := range t.seq {
 			if e != nil {
 				err = e
 				break
@@ -81,6 +89,7 @@ func VerifC13() {
 	t0 := &c13Tree{}
 	t0.root = &mNode{name: c13Name()}
 	t0.root.real = NewRoot(t0.root.name)
+	t0.seq = WalkIterFromRoot(t0.root.real)
 	t0.nodes = []*mNode{t0.root}
 	trees := []*c13Tree{t0}
 	hist := ""
@@ -116,6 +125,7 @@ func VerifC13() {
 			t1 := &c13Tree{}
 			t1.root = &mNode{name: c13Name()}
 			t1.root.real = NewRoot(t1.root.name)
+			t1.seq = WalkIterFromRoot(t1.root.real)
 			t1.nodes = []*mNode{t1.root}
 			trees = append(trees, t1)
 			hist += "N"
